@@ -34,7 +34,7 @@ Check (C06_scan_without_follow_refuted :
   exists h, ~ Bound (fst (run_history (mkCfg scanned_ops true false true) 10 eng_new h))).
 Check (C06_nonvacuous :
   let e := fst (run_history cfg_now 10 eng_new h_no_follow) in
-  threshold (fl (sm e)) = initial_threshold * threshold_multiplier /\
+  threshold (fl (sm e)) <> initial_threshold /\
   free (fl (sm e)) <> [] /\ val_okb e (nth 2 (globals e) VVoid) = true /\
   (exists h b c, nth 2 (globals e) VVoid = VClo h b c /\ b <> [])).
 (* the meaning of Bound is pinned too: its value part says that every global-referencing instruction of every closure
